@@ -150,7 +150,8 @@ def chk_hash(L, pat, salt):
 
 
 HOPS = [["addr", c, t, a] for a in ("p2pkh", "p2wpkh") for c in (True, False) for t in (False, True)] + \
-       [["sec", True], ["sec", False], ["h160", True], ["h160", False]] + [["wallet", kind] for kind in KINDS]
+       [["sec", True], ["sec", False], ["h160", True], ["h160", False]] + [["wallet", kind] for kind in KINDS] + \
+       [["bad_addr"], ["clone", "copy.copy"], ["clone", "pickle"]]
 HK = 0x00000000000000000000000000000000000000000000000000000000deadbeef
 
 
@@ -172,7 +173,17 @@ class KeyObjectHistories:
         viols, label = [], "init"
         for n, op in enumerate(hist):
             last = n == len(hist) - 1
-            if op[0] == "addr":
+            if op[0] == "bad_addr":
+                attempt(pk.address, True, False, "p2tr-not-supported")      # a request that fails; only its after-effects matter
+                attempt(pk.address, False, True, None)
+                vs = []
+            elif op[0] == "clone":
+                from .. import hdscen
+                pk = dict(hdscen.clones(pk)).get(op[1], pk)                  # later requests go to the duplicate
+                node2 = dict(hdscen.clones(node)).get(op[1], node)
+                node, w = node2, BaseWallet(master=node2, testnet=True)
+                vs = []
+            elif op[0] == "addr":
                 st, a = attempt(pk.address, op[1], op[2], op[3])
                 if op[3] == "p2wpkh" and not op[1]:
                     vs = []           # executed as part of the history, not judged (see chk_point)
